@@ -100,6 +100,12 @@ func (w *World) opDecode() {
 		enc, kind = append([]byte(nil), w.lastGoodEnc...), "valid"
 		w.r.Probe("decode_same_encoding_again")
 	}
+	// ... and the encoding that was refused last time: it must be refused
+	// again (an error must not leave anything behind that makes it pass)
+	if w.lastBadEnc != nil && w.t.Chance("ops", "dec.badagain", 1, 6) {
+		enc, kind = append([]byte(nil), w.lastBadEnc...), w.lastBadKind
+		w.r.Probe("decode_refused_encoding_again")
+	}
 	method := w.t.Choose("ops", "dec.method", 4)
 	if kind == "other-format" {
 		// feed a compressed encoding to the uncompressed decoder and vice versa
@@ -113,6 +119,13 @@ func (w *World) opDecode() {
 	p := w.points[r]
 	before, rawBefore := observable(p), rawOf(p)
 	src := append([]byte(nil), enc...)
+	if len(enc) <= len(w.decBuf) && w.t.Bool("ops", "dec.reusedbuf") {
+		// the caller's long-lived buffer: the previous decode's input (and
+		// the scribble that followed it) is overwritten with this one
+		src = w.decBuf[:len(enc)]
+		copy(src, enc)
+		w.r.Fault("decode_from_reused_buffer")
+	}
 	var ret *secp256k1.Point
 	var err error
 	po := protect(func() {
@@ -148,6 +161,7 @@ func (w *World) opDecode() {
 		w.r.Probe("decode_verdict_differs_from_strict_model")
 	}
 	if err != nil {
+		w.lastBadEnc, w.lastBadKind = append([]byte(nil), enc...), kind
 		w.r.Fault("failing_decode")
 		if !w.init[r] {
 			w.r.Fault("failing_decode_into_zero_value")
